@@ -121,6 +121,38 @@ def run_sessions(o, binary, sessions, mode, tag):
     return npoints, len(digests), descs, nok, len(bad) + len(pbad) + ibad
 
 
+def hugewal_case(async_):
+    """more than 128 MiB of overwrites between two memstore rotations (the default size limit of package wal): the database rotates its
+    log only in lock-step with the memstore; a file that the log rotated by itself would outlive the flush and be replayed over newer tables"""
+    u = dbgen.Uniq("h")
+    op = dict(dbgen.open_step(10, 1 << 30, 1000, mem=1 << 30, bg=False))
+    if async_:
+        op["async"] = True
+    steps = [op]
+    for i in range(135):
+        steps.append({"op": "put", "k": i % 2, "v": u.next(), "pad": 1000000})
+    steps += [{"op": "getall", "k": 2}, {"op": "crashcheck", "k": 2}, {"op": "rotate"}, {"op": "barrier"},
+              {"op": "put", "k": 0, "v": u.next(), "pad": 10}, {"op": "del", "k": 1}, {"op": "rotate"}, {"op": "barrier"},
+              {"op": "getall", "k": 2}, {"op": "crashcheck", "k": 2}, {"op": "close"}, dict(op), {"op": "getall", "k": 2}, {"op": "close"}]
+    return steps
+
+
+def hugewal(o, binary, mode, tag):
+    import dbrun
+    steps = hugewal_case(mode == "async")
+    trace = dbrun.run_db_batch(binary, tag + "-hugewal", [steps], seed=SEED, timeout=900)
+    nok, bad, r = dbrun.judge_db(trace, o, "135 MiB of log between two rotations " + tag)
+    seen = set()
+    for b in bad:
+        if b["clause"] in seen:
+            continue
+        seen.add(b["clause"])
+        o.report("hugewal/%s" % b["clause"], "135 x 1 MB overwrites between two rotations (%s WAL), line %s clause %s: %s" % (mode, b["line"], b["clause"], b.get("ev", "")[:400]),
+                 {"session": "hugewal", "steps": None, "mode": mode})
+    o.extra["hugewal_conforming_steps"] = nok
+    o.traces += 1
+
+
 def judge_images(o, ilines, sessions, mode, tag):
     ip = os.path.join(common.scratch("cj-" + tag), "images.ndjson")
     common.write_ndjson(ip, ilines)
@@ -158,6 +190,7 @@ def run(tier, pid=PID, mode="sync"):
     n = 40 if thorough else 8
     sessions = [("%s-%d" % (kinds[i % 4], i), session(rng, kinds[i % 4])) for i in range(n)]
     npoints, ndistinct, descs, nok, nbad = run_sessions(o, binary, sessions, mode, pid)
+    hugewal(o, binary, mode, pid)
     log("[%s] %d sessions, %d crash points (%d distinct images), %d recover into the allowed set, %d rejected" % (pid, n, npoints, ndistinct, nok, nbad))
     o.traces = n
     o.evaluations = npoints
